@@ -12,8 +12,8 @@ import ShVerif.Expect.C28Sites
 
   All five statements that were false on the pinned tree (shift, getopts, arithmetic l-values,
   associative subscripts, Params) hold since the fix: commits 2d6a9e4, 77cabce, fd86341, 443024b,
-  a1547ff and are full theorems now; `append_kind_safe_statement` (namerefs with an empty target,
-  found later) is the one open refuted statement.  Statements that are
+  a1547ff and are full theorems now, and so does `append_kind_safe` (namerefs with an empty target,
+  found later; fix 3a8d3f5).  No refuted statement is left.  Statements that are
   still false of the model (hence of the code: each counter-example is replayed on
   the real interpreter on every run) are kept as `def …_statement : Prop`, with the `…_partial`
   theorem under the exact extra hypothesis and the refutation of the full statement.
@@ -146,34 +146,21 @@ theorem assoc_index_safe (idx : AExpr) : assocIndex idx ≠ .panic := by
 theorem resolve_never_nameref (env : Bytes → Var) (v : Var) : (resolve env v).2.kind ≠ .nameRef :=
   resolveLoop_not_nameref env _ _ _
 
-/-- Full statement: the `default:` branch of `assignVal`'s `Kind` switch
-    (`panic("unexpected conversion of kind %d")`) is unreachable for every stored variable and
-    environment. -/
-def append_kind_safe_statement : Prop :=
-  ∀ (env : Bytes → Var) (v : Var), v.kind ≠ .keepValue → (∀ n, (env n).kind ≠ .keepValue) →
-    appendKind (prevFor env v).kind ≠ .panic
-
-/-- It is unreachable unless a nameref resolves to the *empty* name (then the callers keep the
-    unresolved nameref). -/
-theorem append_kind_partial (env : Bytes → Var) (v : Var) (hv : v.kind ≠ .keepValue)
-    (henv : ∀ n, (env n).kind ≠ .keepValue)
-    (h : (resolve env v).1 ≠ [] ∨ v.kind ≠ .nameRef) : appendKind (prevFor env v).kind ≠ .panic := by
-  have key : ∀ k : VKind, k ≠ .nameRef → k ≠ .keepValue → appendKind k ≠ .panic := by
-    intro k h1 h2; cases k <;> simp_all [appendKind]
+/-- The `default:` branch of `assignVal`'s `Kind` switch (`panic("unexpected conversion of kind
+    %d")`) is unreachable for every stored variable and every environment — namerefs with empty
+    targets, cycles, self references and over-long chains included (full statement since fix
+    3a8d3f5: an unresolved nameref has its own arm; a resolved variable is never a nameref by
+    `resolve_never_nameref`; `KeepValue` is never stored). -/
+theorem append_kind_safe (env : Bytes → Var) (v : Var) (hv : v.kind ≠ .keepValue)
+    (henv : ∀ n, (env n).kind ≠ .keepValue) : appendKind (prevFor env v).kind ≠ .panic := by
+  have key : ∀ k : VKind, k ≠ .keepValue → appendKind k ≠ .panic := by
+    intro k h; cases k <;> simp_all [appendKind]
   unfold prevFor
   by_cases hn : (resolve env v).1 ≠ []
   · rw [if_pos hn]
-    exact key _ (resolve_never_nameref env v)
-      (resolveLoop_kind env (· ≠ .keepValue) (by decide) henv _ _ _ hv)
+    exact key _ (resolveLoop_kind env (· ≠ .keepValue) (by decide) henv _ _ _ hv)
   · rw [if_neg hn]
-    rcases h with h | h
-    · exact absurd h hn
-    · exact key _ h hv
-
-/-- `declare -n r=; r+=(1)`: a nameref with an empty target. -/
-theorem append_kind_counterexample : ¬ append_kind_safe_statement := by
-  intro h
-  exact h (fun _ => ⟨.unknown, []⟩) ⟨.nameRef, []⟩ (by decide) (by intro n; decide) (by decide)
+    exact key _ hv
 
 /-! ## panic-site table -/
 
